@@ -35,7 +35,7 @@ for spec in sys.argv[2:]:
     log = r.stdout + r.stderr
     open(os.path.join(out, 'harness.log'), 'w').write(log)
     cases = [l.rstrip('\n') for l in open(os.path.join(out, 'cases.txt'))] if os.path.exists(os.path.join(out, 'cases.txt')) else []
-    m = subprocess.run(['/verif/build/modeldrv', suite], input='\n'.join(cases) + '\n', capture_output=True, text=True)
+    m = subprocess.run([os.environ.get('MODELDRV', '/verif/build/modeldrv'), suite], input='\n'.join(cases) + '\n', capture_output=True, text=True)
     model = m.stdout.split('\n')[:-1]
     mism, fails = [], []
     for i, (c, mm) in enumerate(zip(cases, model)):
